@@ -357,7 +357,11 @@ def importsOfItem : Item → List Imp
       i.funcs.flatMap (importsOfFn i.key) ++
       i.res.flatMap fun r => (resourceIntrinsic .sync i.key r .importedDrop).toList
   | .func f => importsOfFn .root f
-  | .rtype r => (resourceIntrinsic .sync .root r .importedDrop).toList
+  | .rtype r =>
+      (resourceIntrinsic .sync .root r .importedDrop).toList ++
+      -- wit-parser cannot name it (`assert_eq!(prefix, "")`), but wit-component resolves
+      -- `[export]$root` `[resource-drop]r` against the world's own resource types and accepts it
+      [⟨"[export]$root", "[resource-drop]" ++ r, [.i32], []⟩]
   | .other => []
 
 def importsOfExportItem : Item → List Imp
